@@ -333,7 +333,7 @@ ASSUMPTIONS = [
 
 def leg_m(wd, tier):
     cfgs = [("Host_roots_quick.cfg", "Host/roots sizes 0..4")] if tier == "quick" else \
-           [("Host_roots_quick.cfg", "Host/roots sizes 0..4"), ("Host_roots_thorough.cfg", "Host/roots sizes 0..5, two sessions")]
+           [("Host_roots_thorough.cfg", "Host/roots sizes 0..5"), ("Host_roots_thorough2.cfg", "Host/roots two sessions racing for the lock, sizes 0..3")]
     cfgs.append(("Host_roots_lemma.cfg", "list-model lemma (client API lists), sizes 0..6"))
     return run_model(wd, cfgs)
 
